@@ -238,7 +238,9 @@ def snapshot(h):
         prs = {}
         for p in st.prerequisites:
             for k, v in p.items():
-                prs['/'.join(map(str, k))] = bool(v)
+                # the kind of satisfaction matters too (`cylc remove` leaves
+                # force-satisfied prerequisites alone)
+                prs['/'.join(map(str, k))] = str(v) if v else False
         tasks[i.identity] = {
             'status': st.status,
             'held': bool(st.is_held),
